@@ -133,8 +133,8 @@ def run(ctx):
                 print("replay: %d steps, outcomes %s" % (len(steps), [s[1] for s in steps][-10:]))
                 print("replay: oracle failures", failures, "spec-LC-as-written violated in %d states" % spec_lc)
         if not ctx.replay:
-            nwalks, lo, hi = (12, 100, 280) if ctx.tier == "quick" else (90, 200, 2000)
-            budget = 55 if ctx.tier == "quick" else 1500
+            nwalks, lo, hi = (10, 80, 220) if ctx.tier == "quick" else (90, 200, 2000)
+            budget = 40 if ctx.tier == "quick" else 1500
             for k in range(nwalks):
                 if time.time() - t0 > budget:
                     ctx.notes.append("walk budget reached after %d walks" % k)
